@@ -136,6 +136,81 @@ def chunk_straddle(rnd, level):
     return bytes(pre) + bytes([c]) * rl + tail
 
 
+def bwt_designed(rnd, n, ratio=0.618, K=40):
+    """A plaintext whose Burrows-Wheeler transform is (almost exactly) a designed last column: move-to-front
+    ranks drawn from a geometric/Fibonacci-like law with NO zero ranks (no equal adjacent bytes, so the
+    RUNA/RUNB symbols stay unused) -> maximally deep prefix tables in the compressor.
+    Method: build L by inverse MTF of the ranks; the text alternates between a 2-letter alphabet A and a big
+    alphabet B (rows starting with A end in B and vice versa, so the text itself has no runs); merge the
+    cycles of the LF permutation by swapping adjacent unequal bytes of L; invert the BWT."""
+    import bisect
+    n -= n & 1
+    h = n // 2
+    cum = []
+    acc = 0.0
+    for k in range(K):
+        acc += ratio ** k
+        cum.append(acc)
+    order = list(range(K + 2))          # symbols 0,1 = alphabet A; 2..K+1 = alphabet B
+    L = bytearray(n)
+    for i in range(h):
+        while True:
+            p = 1 + bisect.bisect_left(cum, rnd.random() * acc)
+            if p <= K + 1 and order[p] >= 2:
+                break
+        c = order.pop(p)
+        order.insert(0, c)
+        L[i] = c
+    for i in range(h, n):
+        L[i] = i & 1
+
+    def lf_of(L):
+        cnt = [0] * (K + 3)
+        for c in L:
+            cnt[c + 1] += 1
+        for c in range(1, K + 3):
+            cnt[c] += cnt[c - 1]
+        nxt = cnt[:]
+        lf = [0] * n
+        for i, c in enumerate(L):
+            lf[i] = nxt[c]
+            nxt[c] += 1
+        return lf
+    lf = lf_of(L)
+    parent = list(range(n))
+
+    def find(x):
+        while parent[x] != x:
+            parent[x] = parent[parent[x]]
+            x = parent[x]
+        return x
+    seen = bytearray(n)
+    for i in range(n):
+        if not seen[i]:
+            j = i
+            while not seen[j]:
+                seen[j] = 1
+                parent[j] = i
+                j = lf[j]
+    for i in range(n - 1):
+        if i == h - 1:
+            continue                     # keep the A/B halves apart
+        if L[i] != L[i + 1]:
+            a, b = find(i), find(i + 1)
+            if a != b:
+                L[i], L[i + 1] = L[i + 1], L[i]
+                lf[i], lf[i + 1] = lf[i + 1], lf[i]
+                parent[a] = b
+    # inverse BWT (the LF walk yields the text backwards)
+    out = bytearray(n)
+    j = 0
+    for k in range(n - 1, -1, -1):
+        out[k] = L[j]
+        j = lf[j]
+    base = rnd.choice([0x20, 0x30, 0x61])
+    return bytes(out).translate(bytes((base + c) & 0xff for c in range(256)))
+
+
 FAMILIES = ['uniform', 'k2', 'k3', 'k4', 'k16', 'text', 'runs', 'onebyte', 'fib',
             'tandem', 'period', 'allbytes', 'sorted', 'skewed', 'boundary', 'concat', 'tiny']
 
